@@ -90,7 +90,7 @@ def model_line(kp, c, K):
     return line, e
 
 
-def oracle(c, rng):
+def _oracle(c, rng):
     """the property statement on the implementation, float data, contractive Koopman matrix"""
     try:
         kp, K = build(c, rng=rng, contractive=True)
@@ -147,6 +147,13 @@ def oracle(c, rng):
             if not np.allclose(nxt, Th[k + 1], rtol=1e-9, atol=1e-12):
                 return f'episode {l}: lifted trajectory violates theta[k+1] = A theta[k] + B upsilon[k] at k={k}', tags
     return None, None
+
+
+def oracle(c, rng):
+    try:
+        return _oracle(c, rng)
+    except Exception as ex:
+        return f'predict / predict_trajectory raised {type(ex).__name__}: {ex}', {'raised': True}
 
 
 def run(ctx):
